@@ -14,8 +14,8 @@ Hypotheses, all explicit:
 * the entries' single-line strings and the path-derived module name contain no line break (`Entry.OneLine`, C07);
 * no line of the title frame starts with `.. ` (`C02_text_headings`), which holds in particular when header string
   and title contain no line break and do not start with `.` (`C02_text_headings_simple`).  Without it the frame
-  itself can look like a directive line: the title `.. x`, or a header character `.` with a title of three or more
-  characters… does not (`...` is not `.. `), but a header *string* `.. ` does (`C02_frame_counterexample`).
+  itself can look like a directive line, e.g. with the title `.. x` or the header string `.. `
+  (`C02_frame_counterexample`).
 -/
 namespace Cminx
 
@@ -74,7 +74,7 @@ theorem C02_entry_one_heading (e : Entry) :
     simp [C02_shifted_not_heading body bl hbl]
   have hj : joinWith [','] [arg] = arg := rfl
   rw [he, Elem.tlines]
-  simp only [List.map_cons, List.map_nil, List.nil_append, List.map_append, List.filter_cons, List.filter_append, h0,
+  simp only [List.map_cons, List.map_nil, List.map_append, List.filter_cons, List.filter_append, h0,
     hj, ← hh, h1, hs, Bool.false_eq_true, if_false, if_true, List.append_nil]
   split <;> simp [h0]
 
@@ -220,9 +220,9 @@ example : (splitNl (processDocs ['#'] (lit "t") (lit "m") [exClass, exVar, exFun
       intro e he
       simp only [List.mem_cons, List.mem_nil_iff, or_false] at he
       rcases he with rfl | rfl | rfl
-      · exact exClass_oneLine
-      · exact exVar_oneLine
-      · exact exFunc_oneLine)
+      · exact C07_exClass_oneLine
+      · exact C07_exVar_oneLine
+      · exact C07_exFunc_oneLine)
     (by decide)
     (C02_frame_ok _ _ (by decide) (by simp [lit]) (by decide) (by simp [lit]))
   rw [this]
